@@ -30,7 +30,11 @@ def tol_of(name, t):
     if name == "qad":
         return 1e-9 + 8e-16 / max(abs(math.sin(t)), 1e-12)
     if name == "angular_distance":
-        return 1e-9 + 1e-14 / max(math.sin(t), 1e-7) ** 2 if t > 1 else 1e-9 + 1e-15 / max(math.sin(t), 1e-300)
+        # below 1 rad the documented route (skew part of the matrix over sin) keeps an ABSOLUTE error of a few ulp of the matrix entries:
+        # the closed form is demanded to 1e-9 RELATIVE there (the property: "down to 1e-4 rad"), not to 1e-9 absolute
+        return 1e-9 + 1e-14 / max(math.sin(t), 1e-7) ** 2 if t > 1 else 1e-9 * t + 2e-14
+    if name in ("chordal", "identity_deviation") and t < 1:
+        return 1e-9 * t + 2e-14
     return 1e-9
 
 
@@ -158,6 +162,12 @@ def thin_and_invariance(seed, n):
                 t.fail("C18|%s|not-bi-invariant" % name, {"a": a, "b": b, "g": g, "d": d0, "left": dl, "right": dr})
             if not float(fn(Ra, Rc)) <= d0 + float(fn(Rb, Rc)) + 1e-7:
                 t.fail("C18|%s|triangle-inequality" % name, {"a": a, "b": b, "c": c})
+            # zero when the two rotations coincide: the same matrix twice (generic float rotations, and products of them)
+            for tag, X in (("R", Ra), ("R.G", Ra @ Rg)):
+                t.calls += 1
+                dz = float(fn(X, X.copy()))
+                if not abs(dz) <= 1e-12:
+                    t.fail("C18|%s|not-zero-for-coinciding-rotations" % name, {"R": X, "d": dz})
     return t
 
 
